@@ -74,7 +74,7 @@ func (e *Engine) instantiateLemma(env *SpecEnv, u *Clause) []*Term {
 
 // lemmaObligations generates the proof obligations of every lemma with an SMT proof method.
 func (e *Engine) lemmaObligation(lm *Lemma) *Obligation {
-	st := &State{mem: &Memory{cells: map[string]Value{}}, hypKeys: map[string]bool{}, subst: map[string]*Term{}, names: map[string]Value{}, weak: map[string]bool{}, visits: map[*ssa.BasicBlock]int{}}
+	st := &State{mem: &Memory{cells: map[string]Value{}}, hypKeys: map[string]bool{}, subst: map[string]*Term{}, names: map[string]Value{}, weak: map[string]bool{}, visits: map[*ssa.BasicBlock]int{}, binds: map[string]int{}, lastBind: map[string]ssa.Value{}}
 	env := &SpecEnv{e: e, st: st, vars: map[string]Value{}, fnName: "lemma " + lm.Name, lemma: true}
 	for _, p := range lm.Params {
 		env.vars[p.Name] = mkVar("L."+p.Name, p.Sort)
